@@ -145,6 +145,46 @@ int main(int argc, char** argv) {
             pos.makeMove(m, ui);
         }
     }
+    // pawnless roots of at most four men that the on-demand tablebase does not answer at once: a castling right is still there, or the
+    // half-move clock is so high that the mate only fits after a capture later in the line (category "tbroot"; searched without limits)
+    for (int k = 0; !thinMode && !repMode && k < std::max(2, count / 14); k++) {
+        for (int attempt = 0; attempt < 200; attempt++) {
+            int board[64] = {0};
+            std::string rights = "-";
+            int hmc = 0;
+            auto put = [&](int pc) { for (int t = 0; t < 100; t++) { int sq = rnd.nextInt(64); if (!board[sq]) { board[sq] = pc; return; } } };
+            if (rnd.nextInt(3) != 0) {
+                bool white = rnd.nextInt(2) == 0, kingSide = rnd.nextInt(2) == 0;
+                board[white ? 4 : 60] = white ? Piece::WKING : Piece::BKING;
+                board[(white ? 0 : 56) + (kingSide ? 7 : 0)] = white ? Piece::WROOK : Piece::BROOK;
+                rights = white ? (kingSide ? "K" : "Q") : (kingSide ? "k" : "q");
+                put(white ? Piece::BKING : Piece::WKING);
+                if (rnd.nextInt(2)) put(white ? (rnd.nextInt(2) ? Piece::BKNIGHT : Piece::BBISHOP) : (rnd.nextInt(2) ? Piece::WKNIGHT : Piece::WBISHOP));
+            } else {
+                put(Piece::WKING); put(Piece::BKING);
+                bool white = rnd.nextInt(2) == 0;
+                put(white ? Piece::WQUEEN : Piece::BQUEEN);
+                put(white ? Piece::BROOK : Piece::WROOK);
+                hmc = 84 + rnd.nextInt(14);
+            }
+            std::string f;
+            for (int y = 7; y >= 0; y--) {
+                int e = 0;
+                for (int x = 0; x < 8; x++) { int pc = board[y * 8 + x]; if (!pc) { e++; continue; } if (e) { f += std::to_string(e); e = 0; } f += " KQRBNPkqrbnp"[pc]; }
+                if (e) f += std::to_string(e);
+                if (y) f += '/';
+            }
+            f += std::string(rnd.nextInt(2) ? " w " : " b ") + rights + " - " + std::to_string(hmc) + " 70";
+            Position pos;
+            try { pos = TextIO::readFEN(f); } catch (const ChessParseError&) { continue; }
+            { Position o(pos); o.setWhiteMove(!pos.isWhiteMove()); if (MoveGen::inCheck(o)) continue; }
+            if (rights != "-" && pos.getCastleMask() == 0) continue;
+            MoveList ml; legalMoves(pos, ml);
+            if (ml.size == 0) continue;
+            emit("tbroot", pos, TextIO::toFEN(pos), {}, ml.size); emitted++;
+            break;
+        }
+    }
     while (emitted < count) {
         int mode = rnd.nextInt(10);
         if (mode < 7) {
